@@ -9,7 +9,7 @@ Import ListNotations.
 Local Open Scope N_scope.
 
 Definition flow_cx : ctxremap :=
-  match flow_ctx with Some c => c | None => Build_ctxremap [] [] [] [] end.
+  match flow_ctx with Some c => c | None => Build_ctxremap [] [] [] [] false end.
 
 (* the shape of the regenerated model the theorem is about (fails to compile otherwise) *)
 Lemma flow_row_model_shape :
